@@ -350,7 +350,94 @@ def c09(out, tier):
     return finish_mc(out, npaths, obl, len(tok.all_states(prog)), [{"bounds": bounds}])
 
 
-PROPS = {"C07": c07, "C13": c13, "C03": c03, "C04": c04, "C08": c08, "C09": c09}
+def c01(out, tier):
+    TC, tok, prog, mir, ent, exe, exe_rel = tok_setup(out)
+    if not self_validate(out, tok, prog, exe, 300 if tier == "quick" else 1500, C.seed() + 4):
+        return finish_mc(out, 0, 0, 0, ["self-validation failed"])
+    k = 2 if tier == "quick" else 3
+    classes = [[1] * k] + ([[2] + [1] * (k - 1), [1, 3, 1][:k], [1, 1, 4][:k]] if tier == "thorough" else [[1, 3][:k]])
+    states = tok.all_states(prog)
+    units = []
+    onstarts = ["Continue", "Plaintext", "Script", ("RawData", "Rcdata"), ("RawData", "Rawtext"), ("RawData", "ScriptData")]
+    for st in states:
+        for cls in classes:
+            for base in ([dict(BASE, discard_bom=False)] + [dict(BASE, discard_bom=False, on_start=o) for o in onstarts[1:]]
+                         + [dict(BASE, discard_bom=False, foreign=True, last_start_tag=None)]):
+                # sink-directed switches only matter from states that can complete a start tag within k characters
+                if base["on_start"] != "Continue" and not tag_can_complete(st):
+                    continue
+                if base["foreign"] and tok.state_spec(st) not in ("MarkupDeclarationOpen", "TagOpen", "Data"):
+                    continue
+                units.append({"state": st, "k": k, "classes": cls, "base": base})
+    # look-ahead keywords need longer inputs: concrete keyword prefix + symbolic tail
+    for (st, pre) in (("MarkupDeclarationOpen", "DOCTYP"), ("MarkupDeclarationOpen", "[CDATA"), ("MarkupDeclarationOpen", "-"),
+                      ("AfterDoctypeName", "PUBLI"), ("AfterDoctypeName", "SYSTE"), ("AfterDoctypeName", "pUbLiC"),
+                      (("ScriptDataEscapeStart", "DoubleEscaped"), "script"), (("ScriptDataEscapeStart", "DoubleEscaped"), "scrip"),
+                      ("ScriptDataDoubleEscapeEnd", "script"), ("Data", "<!--"), ("Data", "<a b="), ("Data", "</a"), ("Data", "&am"), ("Data", "&#x1"),
+                      (("RawData", "Rcdata"), "</a"), (("RawData", "ScriptData"), "<!--"), (("AttributeValue", "DoubleQuoted"), "&amp"),
+                      (("AttributeValue", "Unquoted"), "&not")):
+        for fg in (False, True):
+            if fg and pre != "[CDATA":
+                continue
+            units.append({"state": st, "k": k, "classes": [1] * k, "base": dict(BASE, discard_bom=False, foreign=fg), "prefix": [ord(c) for c in pre]})
+    rnd = __import__("random").Random(C.seed())
+    rnd.shuffle(units)
+    res = TC.run_units_fn(TC.unit_c01, units, mir, ent)
+    bounds = ("all %d start states x %d symbolic characters (UTF-8 class vectors %s), last start tag 'a' (a symbolic end-tag name may or may not equal it) and none, "
+              "sink answers {Continue, Plaintext, Script, RawData(Rcdata|Rawtext|ScriptData)}, CDATA allowed or not, plus %d keyword-prefix scenarios (concrete prefix + %d symbolic characters); then EOF") % (
+        len(states), k, classes, 19, k)
+    out.extra["ref_paths"] = sum(r.get("ref_paths", 0) for r in res)
+    npaths, obl = tok_finish_c01(out, TC, tok, prog, res, exe, exe_rel, bounds)
+    out.assumptions += ["oracle: /verif/spec/html_tokenizer_ref.py, a transcription of WHATWG HTML 13.2.5 with the start-state conventions stated in its header; run over the same symbolic characters after CR/CRLF normalisation",
+                        "named references: the reference uses the names with a non-(0,0) value of the table generated from the current tree; C14 checks that table against the pinned snapshot",
+                        "outside the bound: inputs longer than the prefix + k characters"]
+    return finish_mc(out, npaths, obl, len(states), [{"bounds": bounds}])
+
+
+def tag_can_complete(st):
+    from mirsym import tok
+    s = tok.state_spec(st)
+    return s.split(":")[0] in ("TagOpen", "TagName", "BeforeAttributeName", "AttributeName", "AfterAttributeName", "BeforeAttributeValue",
+                               "AttributeValue", "AfterAttributeValueQuoted", "SelfClosingStartTag", "Data")
+
+
+def tok_finish_c01(out, TC, tok, prog, results, exe, exe_rel, bounds):
+    """violations of C01: re-run the reference concretely on the counter-example and the native tokenizer; report only if they differ"""
+    npaths = sum(r["paths"] for r in results)
+    out.queries += sum(r["queries"] for r in results)
+    obl = sum(r["obligations"] for r in results)
+    ents = {n: v for n, v in prog.entities.items() if v != (0, 0)}
+    seen = set()
+    for r in results:
+        for e in r["errors"]:
+            out.inconclusive.append("%s: %s" % (r["unit"], e[-300:]))
+        for v in r["violations"]:
+            key = "C01|spec|%s" % v["state"]
+            if key in seen:
+                continue
+            seen.add(key)
+            cfg = TC.mk_cfg(v["base"])
+            nat = TC.normalize_native(TC.native_obs(exe, cfg, [v["chars"]]), keep_err=False)
+            nat = [b for b, _ in nat]
+            ref = tok.raw_text([(t, 0) for t in TC.ref_concrete(v["base"], v["chars"], ents)])
+            ref = [l.rpartition(" @")[0] for l in ref]
+            if nat != ref:
+                out.violation("tokens differ from the WHATWG tokenization algorithm [start state %s, input %r, sink answer %s, last start tag %r]: implementation %s | specification %s" % (
+                    v["state"], chs(v["chars"]), v["base"]["on_start"], v["base"]["last_start_tag"], nat[:8], ref[:8]),
+                    {"engine": "mirsym", "kind": "spec", "v": {k_: v[k_] for k_ in ("chars", "base", "state")}, "native": nat, "reference": ref}, key)
+            else:
+                out.inconclusive.append("C01 counter-example does not reproduce (native == reference on %r from %s)" % (v["chars"], v["state"]))
+        for pn in r["panics"]:
+            out.inconclusive.append("panic path during C01 exploration (reported by C04): %s %s %r" % (pn["what"], pn["state"], pn["chars"]))
+    out.units.append({"engine": "mirsym + z3", "what": "implementation (interpreted MIR) vs WHATWG reference tokenizer, per path pair", "bounds": bounds,
+                      "work_units": len(results), "paths_explored": npaths, "reference_paths": out.extra.get("ref_paths"), "obligations": obl,
+                      "unit_wall_s_total": round(sum(r["wall"] for r in results), 1)})
+    out.extra["models_used"] = sorted(set(x for r in results for x in r.get("models_used", [])))
+    out.assumptions += M_ASSUME
+    return npaths, obl
+
+
+PROPS = {"C01": c01, "C07": c07, "C13": c13, "C03": c03, "C04": c04, "C08": c08, "C09": c09}
 
 
 def replay(path):
